@@ -765,7 +765,9 @@ class ArrayMixin(metaclass=abc.ABCMeta):
         #   integer, dimension(3:5) :: b
         # would make it "not equal".
         if self.is_lower_bound(index):
-            if self.is_same_array(array2) and array2.is_lower_bound(index2):
+            if (self.is_same_array(array2) and index == index2 and
+                    array2.is_lower_bound(index2) and
+                    sym_maths.equal(range1.step, range2.step)):
                 return True
             if not array1_type:
                 return False
